@@ -13,40 +13,7 @@ bool IsUnimplemented(const std::exception& e) {
 namespace {
 using Teakra::RegisterState;
 
-// The Shadow* helper classes keep their copies in private members; they are plain sequences of
-// u16 (checked by the static_asserts below), so the harness reads them by position.
-static_assert(sizeof(RegisterState::shadow_registers) == 10 * sizeof(u16), "ShadowRegisterList layout changed");
-static_assert(sizeof(RegisterState::shadow_swap_registers) == 32 * sizeof(u16), "ShadowSwapRegisterList layout changed");
-static_assert(sizeof(RegisterState::shadow_swap_ar0) == 6 * sizeof(u16), "ShadowSwapAr layout changed");
-static_assert(sizeof(RegisterState::shadow_swap_arp0) == 6 * sizeof(u16), "ShadowSwapArp layout changed");
-
-u16& ShadowFlag(RegisterState& r, int k) { return reinterpret_cast<u16*>(&r.shadow_registers)[k]; }
-u16* SwapBase(RegisterState& r) { return reinterpret_cast<u16*>(&r.shadow_swap_registers); }
-u16& ShadowSwap_pcmhi(RegisterState& r) { return SwapBase(r)[0]; }
-u16& ShadowSwap_sat(RegisterState& r) { return SwapBase(r)[1]; }
-u16& ShadowSwap_sata(RegisterState& r) { return SwapBase(r)[2]; }
-u16& ShadowSwap_hwm(RegisterState& r) { return SwapBase(r)[3]; }
-u16& ShadowSwap_s(RegisterState& r) { return SwapBase(r)[4]; }
-u16* ShadowSwap_ps(RegisterState& r) { return SwapBase(r) + 5; }
-u16& ShadowSwap_page(RegisterState& r) { return SwapBase(r)[7]; }
-u16& ShadowSwap_stp16(RegisterState& r) { return SwapBase(r)[8]; }
-u16& ShadowSwap_cmd(RegisterState& r) { return SwapBase(r)[9]; }
-u16* ShadowSwap_m(RegisterState& r) { return SwapBase(r) + 10; }
-u16* ShadowSwap_br(RegisterState& r) { return SwapBase(r) + 18; }
-u16* ShadowSwap_im(RegisterState& r) { return SwapBase(r) + 26; }
-u16& ShadowSwap_imv(RegisterState& r) { return SwapBase(r)[29]; }
-u16& ShadowSwap_epi(RegisterState& r) { return SwapBase(r)[30]; }
-u16& ShadowSwap_epj(RegisterState& r) { return SwapBase(r)[31]; }
-struct ArSh { u16 rni, rnj, stepi, stepj, offseti, offsetj; };
-ArSh& ShadowAr(RegisterState& r, int i) {
-    return *reinterpret_cast<ArSh*>(i == 0 ? (void*)&r.shadow_swap_ar0 : (void*)&r.shadow_swap_ar1);
-}
-ArSh& ShadowArp(RegisterState& r, int i) {
-    void* p = i == 0 ? (void*)&r.shadow_swap_arp0 : i == 1 ? (void*)&r.shadow_swap_arp1
-            : i == 2 ? (void*)&r.shadow_swap_arp2 : (void*)&r.shadow_swap_arp3;
-    return *reinterpret_cast<ArSh*>(p);
-}
-#include "flat.gen.h"
+#include "regflat.inc"
 
 u64 SplitMix(u64 x) {
     u64 z = x + 0x9E3779B97F4A7C15ull;
